@@ -65,6 +65,8 @@ class Fixture:
                 if fn in self.progs[x]['funcs']: del self.progs[x]['funcs'][fn]
                 for q, _ in ps:
                     self.progs[q]['funcs'][fn] = rng.choice(('static', 'private', 'protected', 'private', ''))
+        for x in names:
+            self.progs[x]['locals'] = {fn: rng.choice((0, 0, 3, 8, 14, 20)) for fn in FN}
         self.names = names
         self.replacer = None
         if rng.random() < 0.4:
@@ -106,7 +108,8 @@ class Fixture:
         for q, m in pr['parents']: L.append('%sinherit "/c/%s";' % (m + ' ' if m else '', q))
         L.append('string lv_%s = "%s";' % (x, x.upper()))
         for fn, mod in sorted(pr['funcs'].items()):
-            L.append('%sstring %s() { rec("F %s.%s:" + lv_%s); return "%s.%s:" + lv_%s; }' % (mod + ' ' if mod else '', fn, x, fn, x, x, fn, x))
+            nl = pr.get('locals', {}).get(fn, 0)
+            L.append('%sstring %s() { %srec("F %s.%s:" + lv_%s); return "%s.%s:" + lv_%s; }' % (mod + ' ' if mod else '', fn, ('mixed ' + ', '.join('q%d' % j for j in range(nl)) + '; ') if nl else '', x, fn, x, x, fn, x))
         vis = [fn for fn in FN if self.visible_in(x, fn)]
         L.append('mixed local_%s(string n) { %s return "nolocal"; }' % (x, ' '.join('if (n == "%s") return %s();' % (fn, fn) for fn in vis)))
         sup = [fn for fn in FN if self.super_ok(x, fn)]
@@ -121,10 +124,14 @@ class Fixture:
         return '\n'.join(L) + '\n'
 
 
-CALLER = 'void create() { seteuid(getuid()); }\n' + '\n'.join('mixed co_%s(string path) { return load_object(path)->%s(); }' % (fn, fn) for fn in FN + ['f9']) + '\n'
+# deep_<fn>: the call is made with the value stack nearly used up (the depth is set by the plan, one evaluation per depth,
+# from too deep to comfortably shallow): somewhere in between the target's own frame is the one that does not fit
+CALLER = 'int dn;\nmixed setn(string s) { dn = to_int(s); return dn; }\n' + '\n'.join(
+    'mixed deep_%s(object o, int n) { mixed p0, p1, p2, p3; if (n > 0) return deep_%s(o, n - 1); return o->%s(); }\nmixed dp_%s(string path) { return deep_%s(load_object(path), dn); }' % (fn, fn, fn, fn, fn) for fn in FN + ['f9']) + '\n'
+CALLER += 'void create() { seteuid(getuid()); }\n' + '\n'.join('mixed co_%s(string path) { return load_object(path)->%s(); }' % (fn, fn) for fn in FN + ['f9']) + '\n'
 
 
-def _calls(rng, fx, n):
+def _calls(rng, fx, n, deep=False):
     out = []
     for _ in range(n):
         ob = rng.choice(fx.names + fx.names[-2:] * 2)
@@ -133,6 +140,7 @@ def _calls(rng, fx, n):
         if amb and rng.random() < 0.2: ob, fn = rng.choice(amb)
         kind = rng.choice(('co', 'co', 'cco', 'cco', 'aco', 'aco', 'self', 'sself', 'local', 'super', 'fp', 'callout', 'scallout', 'cmd', 'reload', 'sco', 'coldsco', 'coldsco', 'saco'))
         lvl = rng.choice(fx.closure(ob))
+        if deep and rng.random() < 0.08 and ob != 'r': kind = 'deep'
         if ob == 'r':
             # the helper functions of a program are gone once it has replaced itself: only plain calls, and helpers of its parents
             lvl = rng.choice(fx.closure(ob)[1:])
@@ -150,9 +158,17 @@ def _calls(rng, fx, n):
     return out
 
 
-def _cycles(call, idx):
+DEEP_STACK, DEEP_HI, DEEP_LO = 200, 34, 8
+
+
+def _cycles(call, idx, cold=False):
     kind, ob, lvl, fn = call
     tgt = '/c/' + ob
+    if kind == 'deep':
+        # history: the same call from ever less deep recursion (each its own evaluation; the deepest ones end in "stack overflow");
+        # the call that is judged is the plain one afterwards.  As the first call of a fresh life it is made without that history.
+        pre = [] if cold else [send(0, 'do xco %d /c/caller setn %d;xco %d /c/caller dp_%s %s\r\n' % (100000 + idx * 100 + n, n, 100000 + idx * 100 + n, fn, tgt)) for n in range(DEEP_HI, DEEP_LO, -1)]
+        return pre + [send(0, 'do xco %d /c/caller co_%s %s\r\n' % (idx, fn, tgt))]
     if kind == 'co': return [send(0, 'do xco %d %s %s\r\n' % (idx, tgt, fn))]
     if kind == 'aco': return [send(0, 'do xaco %d %s %s\r\n' % (idx, fn, ' '.join('/c/' + x for x in lvl.split(','))))]
     if kind == 'saco': return [send(0, 'do xreload %s;xsaco %d %s %s\r\n' % (tgt, idx, fn, ' '.join('/c/' + x for x in lvl.split(','))))]
@@ -186,8 +202,11 @@ def _base_plan(fx):
 
 def gen(rng, tier, i):
     fx = Fixture(rng)
-    calls = _calls(rng, fx, rng.randint(10, 25 if tier == 'quick' else 40))
+    deep = rng.random() < 0.3
+    calls = _calls(rng, fx, rng.randint(10, 25 if tier == 'quick' else 40), deep)
     p = _base_plan(fx)
+    if deep:
+        p.cfg('StackSize', DEEP_STACK); p.cfg('MaxCallDepth', 150)
     marks = []
     for k, c in enumerate(calls):
         cy = _cycles(c, k)
@@ -215,7 +234,7 @@ def _rebuild(plan, only):
     calls = plan.meta['calls']
     for k, c in enumerate(calls):
         if only is not None and k != only: continue
-        for s in _cycles(tuple(c), k): q.cycle(s)
+        for s in _cycles(tuple(c), k, cold=only is not None): q.cycle(s)
     q.idle(1)
     if only is not None: q.meta['only'] = only
     return q
@@ -278,7 +297,7 @@ def _expect(fxm, call):
     if d == 'ambiguous':
         # several definitions reach the object and none redefines the name: whichever the driver picks, a call_other is
         # refused when every candidate is static, private or protected
-        if kind in ('co', 'cco', 'self', 'sself', 'reload', 'sco', 'coldsco') and all(m in ('static', 'private', 'protected') for _, m in _candidates(fxm, ob, fn)):
+        if kind in ('co', 'cco', 'self', 'sself', 'reload', 'sco', 'coldsco', 'deep') and all(m in ('static', 'private', 'protected') for _, m in _candidates(fxm, ob, fn)):
             return ('r', 'int:0', [])
         return None
     # inherit modifiers change visibility of inherited functions: leave those cases to the differential oracle
@@ -300,7 +319,7 @@ def _expect(fxm, call):
             if mod in ('static', 'private', 'protected'): parts.append('int:0')
             else: parts.append(tag); fs.append(tag)
         return ('r', 'arr:' + ','.join(parts), fs)
-    if kind in ('co', 'cco', 'self', 'sself', 'reload', 'sco', 'coldsco'):
+    if kind in ('co', 'cco', 'self', 'sself', 'reload', 'sco', 'coldsco', 'deep'):
         if d is None: return ('r', 'int:0', [])
         prog, mod = d
         pm = path_mods(ob, prog) or []
